@@ -1,7 +1,8 @@
 """C12 — finite-horizon DP: correspondence of Alg/FH.v with stockpyl.finite_horizon.finite_horizon_dp
 (tolerance regime: the probability vectors and one-period costs are SciPy floats) + an independent
 Python implementation of the documented recursion, evaluation-vs-optimisation, K=0 => s=S, T=1,
-myopic bounds, and a check that the one-period cost is the one of the *specified* demand distribution."""
+myopic bounds (Python oracle + tie of the theorems C12_myopic_* about the model's own myopic levels to myopic_bounds' outputs and to
+the implementation's S_t: myopic_model_compare), and a check that the one-period cost is the one of the *specified* demand distribution."""
 import math, warnings
 from fractions import Fraction
 import numpy as np
@@ -636,6 +637,160 @@ def compare_model(c, r, m, tb, chk):
 
 
 # ------------------------------------------------------------------------------------------------
+# myopic bounds: tie of the theorems C12_myopic_* (Alg/FHMyopic_proofs.v) to the implementation
+#
+# The theorems speak about  fh_opt T xmin n dmin pr L c K g term  on ONE grid.  fh_dp_opt (what model_expr evaluates) is
+# fh_restart on (tbll prl) (tbll Ll) (tblq cl) (tblq Kl) (tblq gl) (fh_terminal hT pT), and C12_restart_sound says that its
+# result FinOk n' o is a completed pass  fh_opt T xmin n' ... = FHOk o  on the FINAL grid with the same x_min and the same
+# tables.  So the arguments of the myopic definitions are: T, xmin = x_range[0], n = |final x_range| (compare_model checks
+# that the model ends on the implementation's grid), dmin = d_min, pr = tbll prob, L = tbll L (rows over the final grid),
+# c, K, g = tblq of the per-period lists, term = fh_terminal hT pT -- literally the tables `tb` sent to fh_dp_opt.
+
+MY_DEFS = '''Open Scope Z_scope.
+Definition my_obs (T : nat) (xmin : Z) (n : nat) (dmin : Z) (prl Ll : list (list Q)) (cl Kl gl : list Q) (hT pT : Q) :=
+  let pr := tbll prl in let L := tbll Ll in let c := tblq cl in let K := tblq Kl in let g := tblq gl in
+  let term := fh_terminal hT pT in
+  (nonneg_okb T pr K g,
+   map (fun t => (lower_okb T xmin n dmin pr L c g term t,
+                  qobs (SunderQ T xmin n dmin pr L c g term t), qobs (SoverQ T xmin n dmin pr L c K g term t))) (seq 1 T)).
+'''
+ROOT_TOL = 1e-9       # brentq / norm.ppf are iterative (xtol 2e-12): guard on the float side of the one-grid-unit comparison
+TRUNC_WARN = 'Total probability of demand outside dema'      # first 40 characters of finite_horizon_dp's demand-truncation warning
+
+
+def myopic_model_eligible(c, r):
+    """optimisation mode, normal demand, the implementation returned a result: the cases of the first stream on which the
+    model's myopic levels are evaluated"""
+    return (not c['malformed']) and r.get('ok') and c['mode'] != 'eval' and c['demand']['kind'] == 'normal'
+
+
+def myopic_model_expr(c, tb, xr):
+    ql = lambda rows: clist([cqlist(r if r is not None else []) for r in rows])
+    return 'my_obs %s %s %s %s %s %s %s %s %s %s %s' % (cnat(c['T']), cz(xr[0]), cnat(len(xr)), cz(tb['d_min']), ql(tb['prob']), ql(tb['L']),
+                                                        cqlist(tb['c']), cqlist(tb['K']), cqlist(tb['g']), cq(c['hT']), cq(c['pT']))
+
+
+def eval_myopic(items, jobs=8):
+    """items: list of (c, r, tb); returns the parsed my_obs values, evaluated in `jobs` coqc processes balanced by estimated cost
+    (each Gmy is a sum over the demand table in unreduced rationals: ~ n * nd^2 per scan of the grid, ~ T (T+1) / 2 scans)"""
+    from concurrent.futures import ThreadPoolExecutor
+    def cost(it):
+        c, r, tb = it; nd = tb['d_max'] - tb['d_min'] + 1
+        return len(r['xr']) * nd * nd * c['T'] * (c['T'] + 3)
+    order = sorted(range(len(items)), key=lambda i: -cost(items[i]))
+    bins = [[] for _ in range(min(jobs, len(items)))]; load = [0] * len(bins)
+    for i in order:
+        b = load.index(min(load)); bins[b].append(i); load[b] += cost(items[i])
+    exprs = [myopic_model_expr(c, tb, r['xr']) for c, r, tb in items]
+    with ThreadPoolExecutor(max_workers=len(bins)) as ex:
+        futs = [ex.submit(coq_eval, 'c12_my%d' % k, 'Alg.FH Alg.FHMyopic_proofs', MY_DEFS, [exprs[i] for i in b], 1700) for k, b in enumerate(bins)]
+        out = [None] * len(items)
+        for b, fu in zip(bins, futs):
+            for i, v in zip(b, fu.result()): out[i] = v
+    return out
+
+
+def impl_myopic_bounds(c):
+    """(S_underbar, S_overbar) of stockpyl.finite_horizon.myopic_bounds for the case, or None if it raises / has the wrong shape
+    (both are reported / counted by myopic_oracle)"""
+    from stockpyl.finite_horizon import myopic_bounds
+    d = c['demand']
+    try:
+        with warnings.catch_warnings():
+            warnings.simplefilter('ignore')
+            Su, So, _, _ = myopic_bounds(c['T'], py_arg(c['h']), py_arg(c['p']), c['hT'], c['pT'], py_arg(c['c']), py_arg(c['K']),
+                                         py_arg(d['mean']), py_arg(d['sd']), py_arg(c['gamma']))
+    except Exception:
+        return None
+    if len(Su) != c['T'] + 1 or len(So) != c['T'] + 1: return None
+    return [float(v) for v in Su], [float(v) for v in So]
+
+
+def myopic_model_compare(c, r, tb, m, mv, chk):
+    """m = parsed observation of the DP model (as in compare_model), mv = parsed my_obs = (nonneg_okb, [(lower_okb t, SunderQ t, SoverQ t)]).
+    Per period t = 1..T, with SunderQ / SoverQ the MODEL's myopic levels on the final grid:
+    (a) hypotheses of the theorems, counted: nonneg_okb && lower_okb t (C12_myopic_lower_bound applies), S_t <> x_min (the DP orders
+        in its lowest state), all three (C12_myopic_bracket applies);
+    (b) the conclusions of the theorems on the IMPLEMENTATION's S_t, no slack:  S_t <= SoverQ t wherever nonneg_okb (C12_myopic_upper_bound),
+        S_t = x_min or SunderQ t <= S_t wherever also lower_okb t (C12_myopic_lower_bound; together C12_myopic_bracket and, when the two
+        levels coincide, C12_myopic_policy_exact).  A violation cannot come from the model (theorem): model and implementation differ;
+    (c) the outputs S_underbar_t / S_overbar_t of myopic_bounds (continuous roots for the exact normal: an oracle) against the model's
+        grid levels:  |S_underbar_t - SunderQ t| <= 1  and  SoverQ t <= S_overbar_t + 1.  The directions S_underbar_t - 1 <= SunderQ t and
+        SoverQ t <= S_overbar_t + 1 are exactly the numeric hypothesis of C12_myopic_bracket_for_given_bounds / _upper_half_; the tolerance
+        is one grid unit and no more: for a convex G_t sampled on the integers the first grid minimiser is floor or ceil of the continuous
+        minimiser y*, and every grid y >= S_overbar_t + 1 has G(y) - G(grid minimum) >= G(S_overbar_t + 1) - G(ceil y*) >=
+        G(S_overbar_t) - G(y*) = gamma_t K_{t+1} (increasing differences), so the last grid point under the model's threshold is
+        <= S_overbar_t + 1; the model's deviations from the exact normal only help (the table's mass <= 1 lowers the threshold; for
+        t < T Gmy differs from G_t on the grid by the linear term gamma_t c_{t+1} ((1 - mass) y - const) with non-negative slope) or
+        are far below the half unit of margin left by the rounding while the table holds all but trunc_tol of the mass.
+        Compared as a mismatch in the periods where the comparison is meaningful:
+          - not period T when the terminal cost is discounted (gamma_T < 1 and hT or pT > 0): myopic_bounds folds the terminal cost
+            UNdiscounted into h_T, p_T, the DP (and Gmy T) discounts it -- same exclusion as myopic_oracle, but for period T only;
+          - not when finite_horizon_dp itself warned that the demand table loses more than trunc_tol of the mass (d_min = 0 cuts the
+            normal): then Gmy (truncated table) and G_t (exact normal) are different functions; the outcome is counted, not judged.
+        The reverse direction for the upper level, SoverQ t >= min(S_overbar_t, x_max) - 1, is counted only: a SMALLER model level makes
+        the proved bracket sharper, and it legitimately falls short by more than a unit when the table's mass is < 1 and G_t is flat."""
+    T = c['T']; xr = r['xr']; x_min, x_max = xr[0], xr[-1]
+    code, body = m
+    if code != 0 or body is None: return                       # reported by compare_model
+    body = body[1] if (isinstance(body, tuple) and body[0] == 'Some') else body
+    mn, body = body
+    if mn != len(xr): return                                    # reported by compare_model: the theorems are about the model's final grid
+    mS = [int(v) for v in body[3]]
+    nonneg, rows = mv
+    if len(rows) != T:
+        chk.mismatch('model: my_obs returns %d periods for T=%d' % (len(rows), T), c); return
+    cnt = lambda k: chk.count('myopic_model:' + k)
+    cnt('cases'); cnt('cases:nonneg_okb' if nonneg else 'cases:nonneg_okb-false')
+    bounds = impl_myopic_bounds(c)
+    if bounds is None: cnt('cases:myopic_bounds-raises(levels-not-compared)')
+    trunc = TRUNC_WARN in r['warn']
+    term_discounted = not (tb['g'][T] == 1.0 or (c['hT'] == 0 and c['pT'] == 0))
+    all_hyp = bool(nonneg) and bounds is not None; all_upper = bool(nonneg) and bounds is not None
+    for t in range(1, T + 1):
+        low, a, b = rows[t - 1]; SuQ, SoQ = qv(a), qv(b); S = r['S'][t]
+        cnt('periods')
+        orders = mS[t - 1] != x_min
+        if nonneg and low: cnt('periods:nonneg_okb&lower_okb(lower-bound-theorem-applies)')
+        if orders: cnt('periods:DP-orders-in-lowest-state(S_t!=x_min)')
+        bracket_hyp = bool(nonneg and low and orders)
+        if bracket_hyp: cnt('periods:all-hypotheses-of-C12_myopic_bracket')
+        # (b) conclusions of the theorems, on the implementation's S_t
+        if int(S) != mS[t - 1] or S != int(S):
+            cnt('periods:S_t-differs-from-model(decided-by-compare_model)')
+        elif nonneg:
+            if not (S <= SoQ):
+                chk.mismatch('period %d: implementation S_t = %r > SoverQ = %s, the model\'s upper myopic level (C12_myopic_upper_bound holds for the model)' % (t, S, SoQ), c)
+            if low and not (S == x_min or SuQ <= S):
+                chk.mismatch('period %d: implementation S_t = %r < SunderQ = %s although nonneg_okb, lower_okb %d hold and S_t != x_min (C12_myopic_lower_bound holds for the model)' % (t, S, SuQ, t), c)
+            if bracket_hyp and SuQ <= S <= SoQ:
+                cnt('periods:bracket-SunderQ<=S_t<=SoverQ-confirmed-on-implementation')
+                if SuQ == SoQ: cnt('periods:myopic-policy-exact(SunderQ=S_t=SoverQ)')
+        # (c) the implementation's myopic_bounds against the model's levels
+        if bounds is None: continue
+        Su, So = bounds[0][t], bounds[1][t]
+        if t == T and term_discounted:
+            cnt('periods:levels-not-compared(period-T,terminal-cost-discounted-by-DP-only)'); all_hyp = all_upper = False; continue
+        lo_ok = abs(Su - float(SuQ)) <= 1 + ROOT_TOL
+        up_ok = float(SoQ) <= So + 1 + ROOT_TOL
+        if trunc:
+            cnt('periods:demand-table-truncated(warned):levels-' + ('within-one-unit' if lo_ok and up_ok else 'NOT-within-one-unit(counted-only)'))
+            if not (Su - 1 - ROOT_TOL <= float(SuQ) and up_ok): all_hyp = False
+            if not up_ok: all_upper = False
+        else:
+            cnt('periods:levels-compared')
+            if not lo_ok:
+                chk.mismatch('period %d: myopic_bounds S_underbar = %r is not within one grid unit of the model\'s myopic level SunderQ = %s' % (t, Su, SuQ), c); all_hyp = False
+            if not up_ok:
+                chk.mismatch('period %d: the model\'s upper myopic level SoverQ = %s exceeds myopic_bounds S_overbar + 1 = %r' % (t, SoQ, So + 1), c); all_hyp = all_upper = False
+            if lo_ok and up_ok: cnt('periods:levels-within-one-unit')
+        cnt('periods:SoverQ>=min(S_overbar,x_max)-1' if float(SoQ) >= min(So, x_max) - 1 - ROOT_TOL else 'periods:SoverQ<min(S_overbar,x_max)-1(counted-only)')
+        if not bracket_hyp: all_hyp = False
+    if all_upper: cnt('cases:C12_myopic_upper_half_for_given_bounds-applies-to-myopic_bounds-outputs')
+    if all_hyp: cnt('cases:C12_myopic_bracket_for_given_bounds-applies-to-myopic_bounds-outputs')
+
+
+# ------------------------------------------------------------------------------------------------
 
 def eval_balanced(todo, jobs=8):
     """coq_eval over the cases, spread over `jobs` coqc processes by estimated cost (longest-processing-time first)"""
@@ -701,6 +856,11 @@ def explore(chk, n, tmax, do_model=True, malformed_rate=0.08, gen=None):
         if do_model: todo.append((c, r, tb, model_expr(c, tb, r['xr'])))
         chk.case(c, nontriv, case_key(c, r))
     if do_model and todo:
+        # the model's myopic levels (Alg/FHMyopic_proofs.v) of the optimisation-mode, normal-demand cases: evaluated concurrently with the DP model
+        from concurrent.futures import ThreadPoolExecutor
+        my_idx = [i for i, (c, r, tb, _) in enumerate(todo) if myopic_model_eligible(c, r)]
+        my_pool = ThreadPoolExecutor(max_workers=1)
+        my_fut = my_pool.submit(eval_myopic, [todo[i][:3] for i in my_idx]) if my_idx else None
         res = eval_balanced(todo)
         for (c, r, tb, _), m in zip(todo, res):
             chk.traces += 1
@@ -708,6 +868,16 @@ def explore(chk, n, tmax, do_model=True, malformed_rate=0.08, gen=None):
                 if m[0] != 3: chk.mismatch('oul_matrix outside x_range: implementation raises ValueError, model code %r' % (m[0],), c)
                 continue
             compare_model(c, r, m, tb, chk)
+        if my_fut is not None:
+            try:
+                my_res = my_fut.result()
+            except Exception as e:
+                chk.broken.append(('harness-myopic-model-eval', '%s: %s' % (type(e).__name__, str(e)[-600:]))); my_res = None
+            if my_res is not None:
+                for i, mv in zip(my_idx, my_res):
+                    c, r, tb, _ = todo[i]
+                    myopic_model_compare(c, r, tb, res[i], mv, chk)
+        my_pool.shutdown()
 
 
 def run(chk):
@@ -715,7 +885,12 @@ def run(chk):
     chk.trusted += ['model Alg/FH.v is hand-written; tied to /repo by comparing cost matrix (1e-9 relative), oul matrix (margin rule), (s,S), total cost and the '
                     'final x-range after range doubling on generated instances',
                     'SciPy distributions (pmf/cdf), loss_functions.normal_loss / discrete_loss / continuous_loss and the EOQB formula enter the model only as input tables recomputed by the harness '
-                    'with the same library calls as finite_horizon.py (oracles)']
+                    'with the same library calls as finite_horizon.py (oracles)',
+                    'myopic_bounds (norm.ppf, brentq) is an oracle for the theorems C12_myopic_*: they are about the model\'s own levels SunderQ / SoverQ '
+                    '(evaluated in Coq with nonneg_okb, lower_okb t on the tables of the final grid, optimisation-mode normal-demand cases of the first stream); '
+                    'the tie is numeric: |S_underbar_t - SunderQ t| <= 1 and SoverQ t <= S_overbar_t + 1 (one grid unit, periods without demand-truncation warning '
+                    'and without a discounted terminal cost in period T), and the theorems\' conclusions are re-checked without slack on the implementation\'s S_t '
+                    '(input_distribution keys myopic_model:*)']
     chk.assume += ['floating-point rounding is not modelled: theorems are over exact rationals; the model is evaluated on the exact rational values of the '
                    "implementation's float tables and compared within 1e-9 relative",
                    'x_range is a contiguous ascending integer range and user oul_matrix entries are integers (what the function itself returns)']
